@@ -257,6 +257,199 @@ def runModel (ops : Array String) : IO Unit := do
     ds := ds'
     out.putStrLn o
 
+
+/-! ### parsing the observation line back into a state (monitor mode) -/
+
+def coinOf (s : String) : Option (Denom × Nat) :=
+  if s = "-" then some ("", 0) else
+  match s.splitOn "/" with
+  | [a, d] => a.toNat?.map (fun n => (d, n))
+  | _ => none
+
+def entries (t : List String) (key : String) : List String := splitList "," (arg t key)
+
+def parsePromosT (s : String) : Option (List (Int × Int × Dec)) :=
+  mapM' (fun e => match e.splitOn "~" with
+    | [a, b, d] => match a.toInt?, b.toInt?, parseDec d with
+      | some x, some y, some z => some (x, y, z)
+      | _, _, _ => none
+    | _ => none) (splitList ";" s)
+
+def parsePromosV (s : String) : Option (List (Nat × Dec)) :=
+  mapM' (fun e => match e.splitOn "~" with
+    | [a, d] => match a.toNat?, parseDec d with
+      | some x, some z => some (x, z)
+      | _, _ => none
+    | _ => none) (splitList ";" s)
+
+def parseCtxState (s : String) : Option CtxState :=
+  match s with | "0" => some .running | "1" => some .paused | "2" => some .completed | _ => none
+def parseBatchState (s : String) : Option BatchState :=
+  match s with | "0" => some .running | "1" => some .completed | _ => none
+
+def splitKey (s : String) : Option (String × Nat) :=
+  match s.splitOn "/" with
+  | [a, b] => b.toNat?.map (fun n => (a, n))
+  | _ => none
+
+/-- rebuild the state an observation line describes; params, supplied denoms come from the reset line -/
+def parseState (base : State) (t : List String) : Option State := do
+  let h ← intArg? t "h"
+  let tm ← intArg? t "t"
+  let idx ← natArg? t "idx"
+  let rates ← mapM' (fun e => match e.splitOn ":" with
+    | [d, r] => (parseDec r).map (fun x => (d, (r, x)))
+    | _ => none) (entries t "rates")
+  let defs ← mapM' (fun e => match e.splitOn ":" with
+    | [n, a] => some (n, a)
+    | _ => none) (entries t "defs")
+  let binds ← mapM' (fun e => match e.splitOn ":" with
+    | [k, owner, dep, av, dt, qos, price, pt, pv] => do
+      let (svc, prov) ← (match k.splitOn "/" with | [a, b] => some (a, b) | _ => none)
+      let d ← coinOf dep
+      let a ← parseBool av
+      let dti ← dt.toInt?
+      let q ← qos.toNat?
+      let pc ← coinOf price
+      let ptl ← parsePromosT pt
+      let pvl ← parsePromosV pv
+      let pr : Pricing := { denom := pc.1, amount := pc.2, ptime := ptl, pvol := pvl }
+      let b : Binding := { owner := owner, deposit := d.2, pricing := pr, qos := q, available := a, disabledTime := dti }
+      some ((svc, prov), b)
+    | _ => none) (entries t "binds")
+  let own ← mapM' (fun e => match e.splitOn ":" with | [p, o] => some (p, o) | _ => none) (entries t "own")
+  let ownp ← mapM' (fun e => match e.splitOn "/" with | [o, p] => some (o, p) | _ => none) (entries t "ownp")
+  let wd ← mapM' (fun e => match e.splitOn ":" with | [o, a] => some (o, a) | _ => none) (entries t "wd")
+  let ctxs ← mapM' (fun e => match e.splitOn ":" with
+    | [id, svc, cons, ps, cap, to, rep, fr, tot, bc, brq, brs, bth, bst, st, thr, md] => do
+      let c ← coinOf cap
+      let toI ← to.toInt?
+      let r ← parseBool rep
+      let f ← fr.toNat?
+      let tt ← tot.toInt?
+      let bcN ← bc.toNat?
+      let brqN ← brq.toNat?
+      let brsN ← brs.toNat?
+      let bthN ← bth.toNat?
+      let bs ← parseBatchState bst
+      let cs ← parseCtxState st
+      let th ← thr.toNat?
+      some (id, ({ svc := svc, providers := splitList "+" ps, consumer := cons, cap := c.2, timeout := toI, repeated := r, freq := f,
+                   total := tt, batchCounter := bcN, batchReqCount := brqN, batchRespCount := brsN, batchRespThreshold := bthN,
+                   batchState := bs, state := cs, respThreshold := th, moduleName := dash md } : Ctx))
+    | _ => none) (entries t "ctxs")
+  let reqs ← mapM' (fun e => match e.splitOn ":" with
+    | [rid, prov, fee, rh, eh, cb] => do
+      let r ← parseRid rid
+      let f ← coinOf fee
+      let rhI ← rh.toInt?
+      let ehI ← eh.toInt?
+      let (c, b) ← splitKey cb
+      some (r, ({ ctx := c, batch := b, provider := prov, feeDenom := f.1, feeAmt := f.2, reqH := rhI, expH := ehI } : Req))
+    | _ => none) (entries t "reqs")
+  let act ← mapM' parseRid (entries t "act")
+  let resps ← mapM' (fun e => match e.splitOn ":" with
+    | [rid, prov, cons, out, cb] => do
+      let r ← parseRid rid
+      let o ← parseBool out
+      let (c, b) ← splitKey cb
+      some (r, ({ provider := prov, consumer := cons, hasOut := o, ctx := c, batch := b } : Resp))
+    | _ => none) (entries t "resps")
+  let vols ← mapM' (fun e => match e.splitOn ":" with
+    | [k, n] => match k.splitOn "/", n.toNat? with
+      | [c, s, p], some v => some ((c, s, p), v)
+      | _, _ => none
+    | _ => none) (entries t "vols")
+  let pairNat := fun (e : String) => match e.splitOn ":" with
+    | [k, n] => match k.splitOn "/", n.toNat? with
+      | [a, d], some v => some ((a, d), v)
+      | _, _ => none
+    | _ => none
+  let earned ← mapM' pairNat (entries t "earned")
+  let oearned ← mapM' pairNat (entries t "oearned")
+  let qEntry := fun (e : String) => match e.splitOn "/" with
+    | [h, id] => h.toInt?.map (fun x => (x, id))
+    | _ => none
+  let hEntry := fun (e : String) => match e.splitOn ":" with
+    | [id, h] => h.toInt?.map (fun x => (id, x))
+    | _ => none
+  let newq ← mapM' qEntry (entries t "newq")
+  let newh ← mapM' hEntry (entries t "newh")
+  let expq ← mapM' qEntry (entries t "expq")
+  let exph ← mapM' hEntry (entries t "exph")
+  let bals ← mapM' pairNat (entries t "bals")
+  let cb ← mapM' (fun e => match e.splitOn "/" with
+    | ["resp", id, n, er] => match n.toNat?, parseBool er with
+      | some x, some y => some (CbEvent.resp id 0 x y)
+      | _, _ => none
+    | ["state", id, cause] => some (CbEvent.state id (cause.replace "_" " "))
+    | _ => none) (entries t "cb")
+  return { base with height := h, time := tm, idx := idx, rates := rates, defs := defs, binds := binds, owners := own, ownerProv := ownp,
+                     wd := wd, ctxs := ctxs, reqs := reqs, active := act, resps := resps, vols := vols, earned := earned,
+                     oearned := oearned, newQ := newq, newH := newh, expQ := expq, expH := exph,
+                     bank := { bal := bals }, cb := cb }
+
+structure MonOut where
+  fails : Nat := 0
+  steps : Nat := 0
+
+def failLine (prop : String) (clause : String) (cls : String) (line : Nat) : String :=
+  s!"mon {prop} FAIL clause={clause} line={line}" ++ (if cls = "" then "" else s!" class={cls}")
+
+/-- strip the result word and the callback field: what a rejected message must leave untouched -/
+def obsBody (o : List String) : List String := (o.drop 1).filter (fun x => !(x.startsWith "cb="))
+
+def runMonitor (prop : String) (ops obs : Array String) : IO Unit := do
+  let out ← IO.getStdout
+  if ops.size ≠ obs.size then
+    out.putStrLn s!"mon {prop} FAIL clause=stream-length ops={ops.size} obs={obs.size}"
+    return
+  let mut base : State := {}
+  let mut ds : List Denom := []
+  let mut pre : State := {}
+  let mut preTok : List String := []
+  let mut m07 : Spec.C07.Mon := {}
+  let mut fails := 0
+  let mut steps := 0
+  let mut havePre := false
+  for i in [0:ops.size] do
+    let t := tokens ops[i]!
+    let o := tokens obs[i]!
+    match t with
+    | "service" :: "reset" :: r =>
+      match parseReset r with
+      | some (s0, dl) =>
+        match parseState s0 o with
+        | some s =>
+          base := s0; ds := dl; pre := s; preTok := o; havePre := true
+          m07 := {}
+          -- the reset line's own observation must be what the reset line says
+          if showState s0 dl ≠ joinWith " " (o.drop 1) then
+            out.putStrLn (failLine prop "reset-state" "" (i+1)); fails := fails + 1
+        | none => out.putStrLn (failLine prop "obs-parse" "" (i+1)); fails := fails + 1; havePre := false
+      | none => out.putStrLn (failLine prop "reset-parse" "" (i+1)); fails := fails + 1; havePre := false
+    | _ =>
+      match parseOp t, parseState base o with
+      | some op, some post =>
+        if !havePre then
+          out.putStrLn (failLine prop "no-pre-state" "" (i+1)); fails := fails + 1
+        else
+          steps := steps + 1
+          let accepted := o.head? == some "ok"
+          if o.head? == some "panic" then
+            out.putStrLn (failLine prop "panic" "" (i+1)); fails := fails + 1
+          -- a rejected message leaves the whole observed state untouched
+          if !accepted ∧ obsBody o ≠ obsBody preTok then
+            out.putStrLn (failLine prop "rejected-state-unchanged" "" (i+1)); fails := fails + 1
+          if prop = "C07" then
+            let (m', fl) := Spec.C07.check ds m07 pre op accepted post
+            m07 := m'
+            for f in fl do
+              out.putStrLn (failLine prop f.clause f.cls (i+1)); fails := fails + 1
+          pre := post; preTok := o
+      | _, _ => out.putStrLn (failLine prop "parse" "" (i+1)); fails := fails + 1
+  out.putStrLn s!"mon {prop} done steps={steps} fails={fails}"
+
 def readLines (p : String) : IO (Array String) := do
   let c ← IO.FS.readFile p
   return (c.splitOn "\n").toArray.filter (· ≠ "")
@@ -264,6 +457,10 @@ def readLines (p : String) : IO (Array String) := do
 def main (args : List String) : IO UInt32 := do
   match args with
   | ["model", ops] => runModel (← readLines ops); return 0
+  | ["monitor", prop, ops, obs] =>
+    if prop = "C07" ∨ prop = "C08" ∨ prop = "C13" then
+      runMonitor prop (← readLines ops) (← readLines obs); return 0
+    else IO.eprintln "unknown property"; return 2
   | _ => IO.eprintln "usage: model <ops> | monitor <C07|C08|C13> <ops> <obs>"; return 2
 
 end Driver.Service
